@@ -276,6 +276,16 @@ func (f *Frame) execDefer(st *State, x *ssa.Defer) {
 	case *ssa.MakeClosure:
 		fn := v.Fn.(*ssa.Function)
 		vc.deferred = append(vc.deferred, vc.p.funcKey(fn))
+		for _, b := range fn.Blocks {
+			for _, in := range b.Instrs {
+				if c, ok := in.(*ssa.Call); ok {
+					if bi, ok := c.Call.Value.(*ssa.Builtin); ok && bi.Name() == "recover" {
+						vc.recovers = true
+						vc.note("deferred closure %s calls recover(): panics of callees do not escape %s (the closure is verified separately for both recover() outcomes)", fn.Name(), f.fn.Name())
+					}
+				}
+			}
+		}
 		vc.note("deferred closure %s is verified separately (effect on tracked state must be declared in its own contract)", fn.Name())
 		return
 	case *ssa.Function:
